@@ -245,6 +245,27 @@ def run(ctx: Ctx) -> int:
     ok = "key[0] == clash_mark" in ast.unparse(dm) and "key[1:]" in ast.unparse(dm)
     ctx.oblige("C11.a", ok, dm, "del_clash_mark removes exactly one leading mark" if ok else "del_clash_mark changed", fn=dm)
 
+    # ---------------- C11.c ---------------------------------------------------
+    from .shared_rules import check_recreate_branches
+
+    check_recreate_branches(ctx, "C11.c")
+    cl = methods.get("clone")
+    ok = cl is not None and any(isinstance(r.value, ast.Call) and call_leaf(r.value) == "recreate_branches" and root_name(r.value.args[0]) == "self" for r in walk_local(cl) if isinstance(r, ast.Return))
+    ctx.oblige("C11.c", ok, cl if cl is not None else cls, "clone() is recreate_branches(self)" if ok else "clone() no longer rebuilds the branches", fn=cl, construct="clone via recreate_branches")
+    up = methods.get("update")
+    ctx.need(up is not None, "Namespace.update")
+    n_up = 0
+    for s_ in walk_local(up):
+        if isinstance(s_, ast.Assign) and isinstance(s_.targets[0], ast.Subscript) and root_name(s_.targets[0].value) == "self":
+            written = ast.unparse(s_.targets[0].slice)
+            for t, pol in guard_chain(s_, stop=up):
+                for cmp_ in [x for x in ast.walk(t) if isinstance(x, ast.Compare) and len(x.ops) == 1 and isinstance(x.ops[0], (ast.In, ast.NotIn)) and root_name(x.comparators[0]) == "self"]:
+                    n_up += 1
+                    tested = ast.unparse(cmp_.left)
+                    ok = tested == written
+                    ctx.oblige("C11.c", ok, s_, f"update(only_unset) tests membership of the key it writes (`{written}`)" if ok else f"update(only_unset) tests `{tested}` but writes `{written}`: an unset nested key is skipped (or a set one overwritten) depending on an unrelated key", fn=up)
+    ctx.floor("C11.c-update-guards", n_up, 2)
+
     # ---------------- C11.b ---------------------------------------------------
     # kinds of parent _parse_key can return
     kinds: Set[str] = set()
